@@ -9,6 +9,8 @@ register("C14",
          "code by exact comparison (adjacency lists, matching incl. order, both cover lists, assert outcome, exploration visit orders) on every edge set for sides "
          "<= 3x3 (quick) / <= 4x4 (thorough), on random graphs up to 8x8 and on random graphs with a deficient matching (wide, tall and square, up to 9x13). "
          "In addition the property oracle alone (independent Kuhn matching + exact minimum cover by enumeration, no model evaluation) judges the code on every edge "
-         "set of the rectangular shapes 1x4, 2x4, 3x4, 2x5 and their transposes (quick) / 2x5, 2x6, 3x5 and transposes (thorough) and on random graphs up to 14x20.",
+         "set of the rectangular shapes 1x4, 2x4, 3x4, 2x5 and their transposes (quick) / 2x5, 2x6, 3x5 and transposes (thorough) and on random graphs up to 14x20, "
+         "and on sparse graphs with very many (almost all isolated) vertices on one side, vertex indices up to 2^17 (quick) / 2^20 (thorough), whose edge "
+         "lists contain entries that would alias one another under packed, truncated or concatenated edge keys (radix 2^k, 10^k, arbitrary).",
          "Trusted: Coq kernel, vm_compute, harness; the hand-written model corresponds to the Python code only as far as the differential runs show (not a theorem). "
          "No per-instance obligations are needed: the size equality is proved for all inputs.")
